@@ -209,6 +209,62 @@ theorem c10_refused_iff (hl : ∀ s, lower (lower s) = lower s) (m : Mgr) (h : R
   | deleted _ hlat _ => cases hlat
   | applied _ hr _ _ _ => exact hr
 
+/-! ### during an event ("at every moment") -/
+
+/-- **c10_mid_event** — for every history and every event: in EVERY state a concurrent lookup can observe while
+    the handler runs (after each `AddWithKey` / `Delete` / `DeleteWithStop` it performs), a name that resolves to
+    the same `ClusterInfo` before and after the event — the cluster's own name, every server name an update
+    keeps, every name of every other cluster — still resolves to it, and nothing resolves to a `ClusterInfo` it
+    resolved to neither before nor after. -/
+theorem c10_mid_event (hl : ∀ s, lower (lower s) = lower s) (m : Mgr) (h : Reachable lower m) (name : Str)
+    (latest : Option Spec) :
+    ∀ s ∈ syncTrace lower m name latest, MidOK m (syncUpstreamCluster lower m name latest).1 s := by
+  intro s hs
+  have hb := trace_between lower hl m (c10_inv lower hl m h) name latest s hs
+  refine ⟨?_, ?_⟩
+  · intro k p h1 h2
+    rcases hb k with h3 | h3
+    · rw [h3]; exact h1
+    · rw [h3]; exact h2
+  · intro k q hq
+    rcases hb k with h3 | h3
+    · left; rw [← h3]; exact hq
+    · right; rw [← h3]; exact hq
+
+/-- names of other clusters are untouched at every moment of an event for `name` -/
+theorem c10_mid_event_frame (hl : ∀ s, lower (lower s) = lower s) (m : Mgr) (h : Reachable lower m) (name : Str)
+    (latest : Option Spec) (k : Str) (p : Nat) (ci : CI)
+    (hk : m.look k = some p) (hci : m.heap[p]? = some ci) (hne : ci.cluster ≠ lower name) :
+    ∀ s ∈ syncTrace lower m name latest, s.look k = some p := by
+  intro s hs
+  exact (c10_mid_event lower hl m h name latest s hs).kept k p hk
+    (c10_frame lower hl m h name latest k p ci hk hci hne).1
+
+theorem midB_of (m m' s : Mgr) (h : MidOK m m' s) : midB m m' s = true := by
+  unfold midB
+  simp only [Bool.and_eq_true, List.all_eq_true]
+  refine ⟨?_, ?_⟩
+  · intro e _
+    split
+    · rfl
+    · rename_i p hp
+      by_cases h2 : m'.look e.1 = some p
+      · simp [h.kept e.1 p hp h2]
+      · simp [h2]
+  · intro e _
+    split
+    · rfl
+    · rename_i q hq
+      rcases h.nostray e.1 q hq with h1 | h1 <;> simp [h1]
+
+/-- the Boolean mid-event judge holds of the model for every history -/
+theorem c10_judge_mid (hl : ∀ s, lower (lower s) = lower s) (m : Mgr) (h : Reachable lower m) (name : Str)
+    (latest : Option Spec) :
+    (syncTrace lower m name latest).all (fun s => midB m (syncUpstreamCluster lower m name latest).1 s) = true := by
+  rw [List.all_eq_true]
+  intro s hs
+  exact midB_of m _ s (c10_mid_event lower hl m h name latest s hs)
+
 /-! ### the `iff` of the property statement -/
 
 /-- a cluster whose latest object was applied stays applied while only events for OTHER clusters are processed -/
@@ -904,6 +960,14 @@ def strayKey : Mgr :=
   { heap := [({ cluster := sA, aliases := [], cert := none, ca := none } : CI)], stopped := [],
     map := [(sA, 0), (sx, 0)] }
 example : invB asciiLower strayKey = false := by decide
+-- an update that drops a server name performs exactly one manager write (the Delete of that name) …
+example : (syncTrace asciiLower (runCalls asciiLower Mgr.init (demoCalls.take 1)) sA
+    (some { aliases := [], cert := some 1, ca := some 1, bad := false })).length = 1 := by decide
+-- … and the mid-event judge rejects an intermediate state in which the kept cluster name is missing
+example : midB (runCalls asciiLower Mgr.init (demoCalls.take 1))
+    (syncUpstreamCluster asciiLower (runCalls asciiLower Mgr.init (demoCalls.take 1)) sA
+      (some { aliases := [], cert := some 1, ca := some 1, bad := false })).1
+    { (runCalls asciiLower Mgr.init (demoCalls.take 1)) with map := [] } = false := by decide
 -- an admissible history: A{x}, B{}, A drops x, B takes x, A deleted
 example : Admissible asciiLower World.init
     [ .apply sA { aliases := [sX], cert := some 1, ca := none, bad := false },
